@@ -78,7 +78,7 @@ def unwind (f : Faults) : List Frame → Option Tag → Env → List Ev × Optio
   | [], exc, env => ([], exc, env)
   | fr :: rest, exc, env =>
     let (ev, r, env1) := fr.run f env
-    let (evs, exc2, env2) := unwind f rest (match r with | some e => some e | none => exc) env1
+    let (evs, exc2, env2) := unwind f rest (r.or exc) env1
     (ev ++ evs, exc2, env2)
 
 /-- the `powercycle_delay` wait: ticks to sleep before `poweron` -/
@@ -98,7 +98,7 @@ def powerOn (f : Faults) (delay id : Nat) (env : Env) : List Ev × Except Tag (O
     if f (.on id) then
       -- `poweron()` raised inside `try`: the `finally` runs at once, nothing is registered
       let (evo, r, env2) := powerOff f id env1
-      (evs ++ evo, .error (match r with | some e => e | none => .on id), env2)
+      (evs ++ evo, .error (r.getD (.on id)), env2)
     else (evs, .ok (some (.power id)), env1)
 
 /-- `self._cx.enter_context(step)` (or `self.init()` for the hook): events, the frame it
@@ -179,7 +179,7 @@ def propagate (f : Faults) : Nat → Tag → Mach → List Ev × Tag × Mach
   | 0, t, m => ([], t, m)
   | d + 1, t, m =>
     let (ev, r, m1) := machExit f (some t) m
-    let (evs, t2, m2) := propagate f d (match r with | some e => e | none => t) m1
+    let (evs, t2, m2) := propagate f d (r.getD t) m1
     (ev ++ evs, t2, m2)
 
 /-- the body of the outermost `with m:`; `d` = number of inner `with m:` blocks that are open -/
@@ -226,10 +226,12 @@ structure SObs where
   rc : Int
   deriving DecidableEq, Repr, Inhabited
 
+/-- `gap` ticks pass on the clock -/
+def advance (gap : Nat) (m : Mach) : Mach := { m with env := { m.env with now := m.env.now + gap } }
+
 /-- `with m: body` as the caller sees it -/
 def runSession (delay : Nat) (steps : List Step) (s : Session) (m : Mach) : SObs × Mach :=
-  let m0 := { m with env := { m.env with now := m.env.now + s.gap } }
-  match machEnter s.f delay steps m0 with
+  match machEnter s.f delay steps (advance s.gap m) with
   | (ev1, some t, m1) => (⟨ev1, some t, m1.rc⟩, m1)
   | (ev1, none, m1) =>
     let (ev2, r2, m2) := runBody s.f delay steps s.body 0 m1
